@@ -8,16 +8,21 @@ from .c17 import ast_of
 
 PROPERTY_ID = "C22"
 LEVEL = "exploration"
-RULE = ("Programs assembled from 1..5 lint triggers drawn from a pool covering every fix-producing lint (unused value, "
-        "unused variable / parameter / import / type parameter, unnecessary let / return, repeated boolean operand, "
-        "list-length comparison, `.len` without parentheses, unreachable match arm after `_`, missing match cases, "
-        "`+` on floats / strings, misspelt method), each with a call that prints its result, then layout-perturbed: "
-        "statements joined onto one line, two triggers on one line, triggers on adjacent lines, last line without a "
-        "newline, multi-byte characters in neighbouring strings (a perturbed text is used only if the real parser "
-        "gives it the same tree). Oracle: `garden check --fix --stdout` exits without crashing; its output parses; "
-        "where the original ran without error the fixed program prints the same and also ends without error; "
-        "repeating `--fix` reaches a fixed point within 5 rounds. Non-trivial = >= 2 fixes were applied, or a fixed "
-        "line also carries other code; distinct = distinct source text.")
+RULE = ("Programs assembled from 1..5 lint triggers, one third drawn from a fixed pool covering every fix-producing "
+        "lint (unused value / variable / parameter / import / type parameter, unnecessary let / return, repeated "
+        "boolean operand, list-length comparison, `.len` without parentheses, unreachable match arm after `_`, "
+        "missing match cases, `+` on floats / strings, misspelt method) and two thirds generated: 1..4 type "
+        "parameters with a random used subset (functions and methods), 1..4 value parameters likewise (functions, "
+        "methods, closures), repeated-boolean chains of 2..4 operands with parenthesised variants in four statement "
+        "positions, 1..3 unused literals of 14 kinds in five positions, six unused-variable shapes, 1..3 unused "
+        "imports in three positions, list-length comparisons with all six operators both ways round, 1..3 "
+        "unreachable arms, and lint triggers nested inside text that another fix removes. Each trigger comes with "
+        "calls that print its results; then layout-perturbed: statements joined onto one line, last line without a "
+        "newline (a perturbed text is used only if the real parser gives it the same tree). Oracle: `garden check "
+        "--fix --stdout` exits without crashing; its output parses; where the original ran without error the fixed "
+        "program prints the same and also ends without error; repeating `--fix` reaches a fixed point within 5 "
+        "rounds. Non-trivial = >= 2 fixes were applied, or a fixed line also carries other code; distinct = distinct "
+        "source text.")
 ASSUMPTIONS = ["each trigger's intended fix is behaviour-preserving by construction (right-hand sides of removed "
                "lets / values are pure)"]
 MANIFEST = dict(
@@ -80,18 +85,183 @@ def join_lines(r, src: str) -> str:
     return s
 
 
+TP_NAMES = ["T", "U", "V", "W"]
+LITERALS = ["7", "\"é lit\"", "[1, 2]", "(1, 2)", "1.5", "True", "x", "(3)", "\"two\nlines\"", "[\"a\", \"b\"]", "None",
+            "Some(1)", "()", "[]"]
+BOOL_ATOMS = ["x", "y", "(x)", "(y)", "z"]
+EXPR_TRIGGERS = [("x || x", False), ("(x && y) && x", False), ("x || (x)", False), ("xs.len() == 0", False),
+                 ("0 < xs.len()", False), ("\"a\" + \"b\"", True), ("xs.len", True), ("1.5 + 2.5 > 1.0", True)]
+
+
+def t_type_params(r, n):
+    k = r.int(1, 4)
+    names = TP_NAMES[:k]
+    used = [t for t in names if r.int(0, 1)]
+    params = ", ".join(f"a_{i}: {t}" for i, t in enumerate(used))
+    ret, body = ("Int", str(n))
+    if used and r.bool():
+        ret, body = used[0], "a_0"
+    args = ", ".join(str(n + i) for i in range(len(used)))
+    if r.int(0, 3) == 0:
+        recv = "Int"
+        d = f"method tp_{n}<{', '.join(names)}>(this: {recv}{', ' if params else ''}{params}): {ret} {{\n  {body}\n}}"
+        return d, f"println(string_repr(1.tp_{n}({args})))", False
+    d = f"fun tp_{n}<{', '.join(names)}>({params}): {ret} {{\n  {body}\n}}"
+    return d, f"println(string_repr(tp_{n}({args})))", False
+
+
+def t_params(r, n):
+    k = r.int(1, 4)
+    used = [i for i in range(k) if r.int(0, 1)]
+    params = ", ".join(f"p{i}_{n}: Int" for i in range(k))
+    body = " + ".join(["(" * 0 + f"p{i}_{n}" for i in used][:2] or [str(n)])
+    args = ", ".join(str(n + i) for i in range(k))
+    kind = r.int(0, 2)
+    if kind == 0:
+        return f"fun pr_{n}({params}): Int {{\n  {body}\n}}", f"println(string_repr(pr_{n}({args})))", False
+    if kind == 1:
+        return (f"method pr_{n}(this: String, {params}): Int {{\n  {body}\n}}",
+                f"println(string_repr(\"s\".pr_{n}({args})))", False)
+    return (f"fun pr_{n}(): Int {{\n  let clo_{n} = fun({params}) {{ {body} }}\n  clo_{n}({args})\n}}",
+            f"println(string_repr(pr_{n}()))", False)
+
+
+def t_repeated_bool(r, n):
+    op = r.choice(["||", "&&"])
+    k = r.int(2, 4)
+    atoms = [r.choice(BOOL_ATOMS) for _ in range(k)]
+    atoms[r.int(1, k - 1)] = r.choice([atoms[0], "(" + atoms[0].strip("()") + ")", atoms[0].strip("()")])
+    expr = atoms[0]
+    for a in atoms[1:]:
+        expr = f"({expr}) {op} {a}" if r.int(0, 2) == 0 else f"{expr} {op} {a}"
+    calls = "\n".join(f"println(string_repr(rb_{n}({a}, {b}, {c})))" for a in ("True", "False") for b in ("True", "False")
+                      for c in ("True", "False"))
+    wrap = r.int(0, 3)
+    body = {0: f"  {expr}", 1: f"  let res_{n} = {expr}\n  res_{n}", 2: f"  if {expr} {{ True }} else {{ False }}",
+            3: f"  return {expr}"}[wrap]
+    return f"fun rb_{n}(x: Bool, y: Bool, z: Bool): Bool {{\n{body}\n}}", calls, False
+
+
+def t_unused_values(r, n):
+    k = r.int(1, 3)
+    stmts = [r.choice(LITERALS) for _ in range(k)]
+    where = r.int(0, 4)
+    if where == 0:
+        body = "".join(f"  {v}\n" for v in stmts) + f"  {n}"
+    elif where == 1:
+        body = "  if x > 0 {\n" + "".join(f"    {v}\n" for v in stmts) + f"    println(\"branch {n}\")\n  }}\n  {n}"
+    elif where == 2:
+        body = "  for i in [1, 2] {\n" + "".join(f"    {v}\n" for v in stmts) + f"    println(string_repr(i))\n  }}\n  {n}"
+    elif where == 3:
+        body = f"  let clo = fun() {{ {' '.join(stmts)} {n} }}\n  clo()"
+    else:
+        body = "  " + " ".join(stmts) + f" {n}"
+    return f"fun uvs_{n}(x: Int): Int {{\n{body}\n}}", f"println(string_repr(uvs_{n}(1)))", False
+
+
+def t_unused_vars(r, n):
+    kind = r.int(0, 5)
+    if kind == 0:
+        body = f"  let (ua_{n}, ub_{n}) = (1, {n})\n  ub_{n}"
+    elif kind == 1:
+        body = f"  let total = {n}\n  for ui_{n} in [1, 2] {{\n    println(\"iter\")\n  }}\n  total"
+    elif kind == 2:
+        body = f"  match Some({n}) {{\n    Some(um_{n}) => 1\n    None => 2\n  }}"
+    elif kind == 3:
+        body = f"  let uu_{n} = helper_{n}()\n  let uw_{n} = [1, 2]\n  {n}"
+    elif kind == 4:
+        body = f"  let uu_{n} = 1 let uk_{n} = {n}\n  uk_{n}"
+    else:
+        body = f"  let uu_{n}: Int = 1\n  let (uc_{n}, ud_{n}) = (1, 2)\n  {n}"
+    return (f"fun helper_{n}(): Int {{\n  println(\"effect {n}\")\n  1\n}}\nfun uvr_{n}(): Int {{\n{body}\n}}",
+            f"println(string_repr(uvr_{n}()))", False)
+
+
+def t_imports(r, n):
+    k = r.int(1, 3)
+    files = ["__fs.gdn", "__random.gdn", "__time.gdn", "__reflect.gdn"]
+    lines = []
+    for i in range(k):
+        f = files[(n + i) % 4]
+        lines.append(f'import "{f}" as imp{i}_{n}' if r.int(0, 3) else f'import "{f}"')
+    fun = f"fun im_{n}(): Int {{ {n} }}"
+    pos = r.int(0, 2)
+    if pos == 0:
+        d = "\n".join(lines) + "\n" + fun
+    elif pos == 1:
+        d = fun + "\n" + "\n".join(lines)
+    else:
+        d = lines[0] + "\n" + fun + "\n" + "\n".join(lines[1:])
+    return d, f"println(string_repr(im_{n}()))", False
+
+
+def t_overlap(r, n):
+    e, mf = r.choice(EXPR_TRIGGERS)
+    wrap = r.int(0, 4)
+    if wrap == 0:
+        body = f"  let unused_{n} = {e}\n  {n}"
+    elif wrap == 1:
+        body = f"  println(string_repr({e}))\n  return {n}"
+    elif wrap == 2:
+        body = f"  let tmp_{n} = {e}\n  tmp_{n}"
+    elif wrap == 3:
+        body = f"  let unused_{n} = {e} let other_{n} = {e}\n  println(string_repr(other_{n}))\n  {n}"
+    else:
+        body = f"  println(string_repr({e}))\n  [{n}, 1]\n  return {n}"
+    ret = "Int" if wrap != 2 else "Bool"
+    if wrap == 2 and ("+" in e and "\"" in e or e == "xs.len"):
+        ret = "String" if "\"" in e else "Int"
+    return (f"fun ov_{n}(x: Bool, y: Bool, xs: List<Int>): {ret} {{\n{body}\n}}",
+            f"println(string_repr(ov_{n}(True, False, [])))\nprintln(string_repr(ov_{n}(False, False, [1])))", mf)
+
+
+def t_len_compare(r, n):
+    lhs, rhs = "xs.len()", "0"
+    op = r.choice(["==", "!=", ">", "<", ">=", "<="])
+    if r.bool():
+        lhs, rhs = rhs, lhs
+    rhs2 = r.choice(["0", "1"])
+    e = f"{lhs} {op} {rhs}".replace("0", rhs2, 1) if r.int(0, 3) == 0 else f"{lhs} {op} {rhs}"
+    recv = r.choice(["xs", "[1, 2]", "xs.append(1)", "(xs)"])
+    e = e.replace("xs", recv)
+    return (f"fun lc_{n}(xs: List<Int>): Bool {{\n  {e}\n}}",
+            f"println(string_repr(lc_{n}([])))\nprintln(string_repr(lc_{n}([1])))\nprintln(string_repr(lc_{n}([1, 2])))", False)
+
+
+def t_unreachable(r, n):
+    k = r.int(1, 3)
+    arms = [f"    Aa_{n} => \"a\"", f"    Bb_{n}(_) => \"b\"", f"    Cc_{n} => \"c\""]
+    pre = arms[:r.int(0, 2)]
+    post = [r.choice(arms) for _ in range(k)]
+    lines = pre + ["    _ => \"other\""] + post
+    return (f"enum En_{n} {{ Aa_{n}, Bb_{n}(Int), Cc_{n} }}\nfun un_{n}(e: En_{n}): String {{\n  match e {{\n"
+            + "\n".join(lines) + "\n  }\n}",
+            f"println(un_{n}(Aa_{n}))\nprintln(un_{n}(Bb_{n}(1)))\nprintln(un_{n}(Cc_{n}))", False)
+
+
+PARAMETRIC = [t_type_params, t_params, t_repeated_bool, t_unused_values, t_unused_vars, t_imports, t_overlap,
+              t_len_compare, t_unreachable]
+
+
 def gen(r):
     k = r.int(1, 5)
-    defs, calls, may_fail = [], [], False
+    defs, calls, may_fail, kinds = [], [], False, []
     for i in range(k):
-        d, c, mf = r.choice(TRIGGERS)
         n = 10 + i
-        defs.append(d.format(n=n))
-        calls.append(c.format(n=n))
+        if r.int(0, 2) == 0:
+            d, c, mf = r.choice(TRIGGERS)
+            d, c = d.format(n=n), c.format(n=n)
+            kinds.append("static")
+        else:
+            f = r.choice(PARAMETRIC)
+            d, c, mf = f(r, n)
+            kinds.append(f.__name__[2:])
+        defs.append(d)
+        calls.append(c)
         may_fail = may_fail or mf
     base = "\n\n".join(defs) + "\n\n" + "\n".join(calls) + "\n"
     src = join_lines(r, base)
-    return {"base": base, "src": src, "may_fail": may_fail}
+    return {"base": base, "src": src, "may_fail": may_fail, "kinds": sorted(set(kinds))}
 
 
 def outcome(run):
@@ -105,10 +275,10 @@ def check(case, ctx) -> Res:
     if "died" in a0 or "panic" in a0 or a0.get("errors"):
         return Res(ok=True, classes=("base-does-not-parse",), detail=str(a0.get("errors"))[:200])
     a1 = ast_of(ctx, src)
-    cls = ["perturbed"]
+    cls = ["perturbed"] + ["trigger:" + k for k in case.get("kinds", [])]
     if "died" in a1 or "panic" in a1 or a1.get("errors") or a1["items"] != a0["items"]:
         src = base
-        cls = ["perturbation-rejected"]
+        cls[0] = "perturbation-rejected"
     path = ctx.scratch.file(src)
     orig = run_garden(["run", path], cwd=ctx.scratch.root, timeout=30)
     if orig.timed_out:
